@@ -3,6 +3,7 @@ package c13
 
 import (
 	"bytes"
+	"hash/fnv"
 	stdjson "encoding/json"
 	"fmt"
 	"io"
@@ -27,7 +28,7 @@ var reps = map[string][]string{
 	"ESCL": {"n", "t", "r", "b", "f", "/"},
 	"U4":   {"u0041", "uD83D", "u00e9", "u0000", "uDE00", "u2028"},
 	"U2":   {"u0g", "uZZ"},
-	"N0":   {"0"}, "N1": {"1", "7", "9"}, "MINUS": {"-"}, "PLUS": {"+"}, "DOT": {"."}, "EXP": {"e", "E"},
+	"N0":   {"0"}, "N1": {"1", "7", "9", "9007199254740993", "123456789012345678901234567890", "18446744073709551617"}, "MINUS": {"-"}, "PLUS": {"+"}, "DOT": {"."}, "EXP": {"e", "E"},
 	"LIT":    {"true", "false", "null"},
 	"CTRL":   {"\x01", "\x1f", "\x00", "\x0b"},
 	"BADUTF": {"\xff", "\xc3\x28", "\xed\xa0\x80"},
@@ -129,10 +130,24 @@ func Handle(c *core.Check, st core.State) {
 	stack := tla.Seq(tla.Rec(st.Vars["st"])["stack"])
 	isKey := tla.Bool(tla.Rec(st.Vars["st"])["key"])
 	accept := len(stack) == 0 && !isKey && (mode == "after" || mode == "zero" || mode == "int" || mode == "frac" || mode == "exp")
-	p := newPicker(c.Seed)
+	// representatives vary per vector (seed + hash of the class string), so that every
+	// representative of a class meets every context over the run
+	h := fnv.New64a()
+	h.Write([]byte(strings.Join(classes, " ")))
+	p := newPicker(c.Seed + int64(h.Sum64()%100003))
+	hasExp := false
+	for _, cl := range classes {
+		hasExp = hasExp || cl == "EXP"
+	}
 	var sb strings.Builder
 	hasBad := false
 	for _, cl := range classes {
+		if cl == "N1" && hasExp && len(p.pick[cl]) > 1 {
+			// an exponent with dozens of digits overflows the number representation, where
+			// spec.md allows an error; keep exponents small
+			sb.WriteString("7")
+			continue
+		}
 		sb.WriteString(p.pick[cl])
 		if cl == "BADUTF" {
 			hasBad = true
